@@ -2003,6 +2003,9 @@ def conn_case(ck, root, spec):
                         co.close()
                     else:
                         tm1.get().join(FailingRM(rd['when'], False))
+                # a savepoint may already have evicted a new object from a tiny cache (cacheGC; its state then
+                # lives in the savepoint store only and cannot survive the transaction): not judged
+                evicted = [o._p_changed is None for o in newobjs]
                 before = image()
                 n0 = len(rec.events)
                 if rd['kind'] == 'savepoint-fail':
@@ -2075,7 +2078,13 @@ def conn_case(ck, root, spec):
                         return
                     restart(tm1)
                     continue
-                lost = [type(o).__name__ for o in newobjs if o._p_oid is None and o._p_changed is None]
+                lost = [type(o).__name__ for o, ev in zip(newobjs, evicted)
+                        if o._p_oid is None and o._p_changed is None and not ev]
+                if any(evicted):
+                    ck.count('conn:new-object-evicted-by-savepoint')
+                    keep = [j for j, ev in enumerate(evicted) if not ev]
+                    newobjs = [newobjs[j] for j in keep]
+                    newinfo = [newinfo[j] for j in keep]
                 if lost:
                     # (disowned AND turned into a ghost: its state existed only in this transaction)
                     newobjs = []
